@@ -260,7 +260,7 @@ func (m *machine) class(c string) { m.cls[c] = true }
 func newMachine(t *rapid.T) *machine {
 	m := &machine{t: t, overlay: map[string]ovEntry{}, versions: map[string][]version{}, cls: map[string]bool{}}
 	m.lazy = rapid.Bool().Draw(t, "lazy")
-	m.bigValues = rapid.IntRange(0, 7).Draw(t, "bigValues") == 0
+	m.bigValues = rapid.IntRange(0, 39).Draw(t, "bigValues") == 0
 	m.und = memorydb.New()
 	m.real = kvmodel.New()
 	// real DB empty or initialised first
